@@ -111,3 +111,42 @@ func VerifC07Concurrent2x2() {
 	}
 	verifCover("C07.c4.end")
 }
+
+// three threads, each issuing one number
+func VerifC07Concurrent3Next() {
+	s0, roc0 := verifU16("seq0"), verifU64("roc0")
+	s := &sequencer{sequenceNumber: s0, rollOverCount: roc0}
+	var a, b, c uint16
+	verifThread(func() { a = s.NextSequenceNumber() })
+	verifThread(func() { b = s.NextSequenceNumber() })
+	verifThread(func() { c = s.NextSequenceNumber() })
+	verifJoin()
+	da, db, dc := a-s0, b-s0, c-s0
+	verifAssert("C07.c3n.range", da >= 1 && da <= 3 && db >= 1 && db <= 3 && dc >= 1 && dc <= 3)
+	verifAssert("C07.c3n.distinct", da != db && da != dc && db != dc)
+	verifAssert("C07.c3n.state", s.sequenceNumber == s0+3)
+	verifAssert("C07.c3n.rollover", s.rollOverCount == roc0+verifZero(a)+verifZero(b)+verifZero(c))
+	if dc == 1 && da == 3 {
+		verifCover("C07.c3n.reversed")
+	}
+	verifCover("C07.c3n.end")
+}
+
+// one thread issues two numbers while another reads the roll-over count twice:
+// the count never decreases and stays within the zeros issued
+func VerifC07ConcurrentMixed() {
+	s0, roc0 := verifU16("seq0"), verifU64("roc0")
+	verifAssume(roc0 < 1<<62)
+	s := &sequencer{sequenceNumber: s0, rollOverCount: roc0}
+	var a1, a2 uint16
+	var r1, r2 uint64
+	verifThread(func() { a1 = s.NextSequenceNumber() }, func() { a2 = s.NextSequenceNumber() })
+	verifThread(func() { r1 = s.RollOverCount() }, func() { r2 = s.RollOverCount() })
+	verifJoin()
+	verifAssert("C07.mix.values", a1 == s0+1 && a2 == s0+2)
+	verifAssert("C07.mix.roc-monotone", r1 <= r2)
+	verifAssert("C07.mix.roc-lower", r1 >= roc0)
+	verifAssert("C07.mix.roc-upper", r2 <= roc0+verifZero(a1)+verifZero(a2))
+	verifAssert("C07.mix.roc-final", s.rollOverCount == roc0+verifZero(a1)+verifZero(a2))
+	verifCover("C07.mix.end")
+}
